@@ -286,7 +286,10 @@ def match_known(prop, inp_t, obs_t, known, pcode=0):
         if k.get('property') != prop or k.get('status', 'open') != 'open':
             continue
         try:
-            if eval(k['match'], {'__builtins__': {}}, {'inp': inp_t, 'obs': obs_t, 'pcode': pcode, 'len': len, 'any': any, 'all': all, 'isinstance': isinstance, 'int': int, 'list': list, 'max': max, 'min': min, 'sum': sum, 'range': range}):
+            env = {'__builtins__': {}, 'inp': inp_t, 'obs': obs_t, 'pcode': pcode, 'len': len, 'any': any, 'all': all,
+                   'isinstance': isinstance, 'int': int, 'list': list, 'max': max, 'min': min, 'sum': sum, 'range': range,
+                   'abs': abs, 'sorted': sorted, 'set': set, 'enumerate': enumerate, 'zip': zip}
+            if eval(k['match'], env):
                 return k
         except Exception:
             continue
